@@ -184,6 +184,13 @@ Definition slot_tw (sv : server) (b : bucket) (we rs cs : list N) (tw : list twv
       else (b, Ok (false, rd))
   end end end.
 
+(* the preconditions of the C24 statements: header fields and timestamps fit their formats,
+   secrets and node id have the protocol's lengths, the request is a dict, the bucket is well-formed *)
+Definition request_ok (sv : server) (b : bucket) (rs cs : list N) (tw : list twv) (now : N) : Prop :=
+  468 + s_maxsz sv < 2 ^ 64 /\ bucket_ok (s_maxsz sv) b /\ NoDup (names tw) /\
+  length rs = 32%nat /\ length cs = 32%nat /\ length (s_nodeid sv) = 20%nat /\ (forall s, length (H s) = 32%nat) /\
+  now + DEFAULT_RENEWAL_TIME < 2 ^ 32.
+
 (* the same request without the size validation: the behaviour before the fix, kept to
    state the finding (Proofs/Slot.v slot_tw_unvalidated_not_atomic) *)
 Definition slot_tw_unvalidated (sv : server) (b : bucket) (we : list N) (tw : list twv) (rv : readvec)
